@@ -3,14 +3,25 @@ use crate::common::*;
 use crate::pairhist::*;
 
 pub fn run_prop(args: &Args, prop: &str, bias: Bias, rule: &str) {
+    if let Some(f) = &args.replay { std::process::exit(replay_file(prop, f, &format!("{}/scratch", args.out))); }
     let mut out = Out::new(&args.out);
     out.rule = rule.to_string();
     let mut rng = Rng::new(args.seed);
-    for c in 0..args.n {
+    let corpus = threshold_corpus();
+    let ncorpus = corpus.len() as u64;
+    for c in 0..(args.n + ncorpus) {
         let len = 5 + rng.below(if args.tier == "thorough" { 56 } else { 30 }) as usize;
-        let mut case = gen_case(&mut rng, len, &bias);
-        if prop == "C01" || c % 3 == 0 { add_deposit_withdraw_pairs(&mut rng, &mut case); }
+        let mut case = if c < ncorpus { corpus[c as usize].clone() } else { gen_case(&mut rng, len, &bias) };
+        if c >= ncorpus && (prop == "C01" || c % 3 == 0) { add_deposit_withdraw_pairs(&mut rng, &mut case); }
+        let nfail = out.monitor_failures.len();
         let r = match run_case(&mut out, prop, &case) { Some(r) => r, None => { out.count("deploy_failed"); continue } };
+        if out.monitor_failures.len() > nfail && nfail == 0 {
+            // shrink the first failing history and put the minimal one in front
+            let small = shrink_case(prop, &case, &format!("{}/scratch", args.out));
+            let mut tmp = Out::new(&format!("{}/scratch", args.out));
+            let _ = run_case(&mut tmp, prop, &small);
+            if let Some(f) = tmp.monitor_failures.into_iter().next() { out.monitor_failures.insert(0, f); }
+        }
         out.count(&format!("kinds:{}{}", case.kinds[0] as u8, case.kinds[1] as u8));
         out.count(&format!("len:{}", case.ops.len() / 10 * 10));
         if r.kinds_ok.len() >= 3 && r.had_remainder { out.nontrivial_key(hash_str(&case.coq())); }
